@@ -115,6 +115,28 @@ theorem C20_receive_plain : C20_receive (fun f => plainFields f = true) := by
         | false => simp
 #assert_axioms C20_receive_plain
 
+/-- The route for EVERY request, in terms of the map rocket builds from the fields (`rocketMap`,
+    whose keys are pairwise distinct — `rocketMap_distinct`): 422 when rocket rejects the form;
+    otherwise exactly what the statement says *about that map*.  The only distance to `C20_full` is
+    `rocketMap fields` versus `fields`, which `rocketMap_plain` closes for plain names. -/
+theorem C20_receive_all (t : Table) (sid : Nat) (fields : List (Bytes × Bytes)) :
+    handlePost t sid fields =
+      match rocketMap fields with
+      | none => (422, t)
+      | some form =>
+        match lookup t sid, specEvent form with
+        | some _, some (n, _) =>
+          (200, enqueue t sid
+            { name := n,
+              params := if (otherFields form).isEmpty then none else some (otherFields form),
+              content := fieldValue form scxmlContent })
+        | _, _ => (400, t) := by
+  unfold handlePost
+  cases h : rocketMap fields with
+  | none => rfl
+  | some form => exact routeBody_spec t sid form (rocketMap_distinct fields form h)
+#assert_axioms C20_receive_all
+
 /-- For EVERY request (any field names, duplicates, any table): either an error status and the
     table is unchanged, or status 200 and exactly one `enqueue` on the addressed, existing session.
     One request is one atomic step. -/
